@@ -104,12 +104,12 @@ class FB:
         self._cur = None
         return c
 
-    def comment_nl(self):
-        """Line break inside a block comment, followed by the form's continuation decoration."""
+    def comment_nl(self, lead=""):
+        """Line break inside a block comment, followed by (indentation and) the form's continuation decoration."""
         c = self._cur
         assert c is not None and c.form.kind == "block"
         self.nl()
-        self.raw(c.form.cont)
+        self.raw(lead + c.form.cont)
 
     def tag(self, kind, src, attrs=None, in_comment=None):
         """Write a tag's source text; src must start with '<' and end with '>'."""
